@@ -21,9 +21,9 @@ import (
 func init() {
 	register(&mc.Prop{
 		ID: "C17",
-		Rule: "explicit-state BFS over configuration histories: operations = create instance (default | both switches), RegisterCodec(Marker, m) / RegisterCodecWithTag(Marker, flat|custom, m) on any instance with one of three marker codecs, Use(instance) (run the probe battery early); histories to depth 5 (thorough 6) over at most two instances, states de-duplicated on the model's registration sets; " +
+		Rule: "explicit-state BFS over configuration histories: operations = create instance (default | both switches), RegisterCodec / RegisterCodecWithTag(flat|custom) for the named type Marker and for its underlying basic type int, on any instance, Use(instance) (run the probe battery early); histories to depth 5 (thorough 6) over at most two instances, states de-duplicated on the model's registration sets; " +
 			"in every state each instance (and the package-level default, and the package functions) runs a battery of 11 probes putting the named type in every position (value, field, *T, []T, map key, map value, field tagged flat / custom, *T tagged, time and string slices for the options). " +
-			"Oracle: bytes equal the model's prediction for that instance only - registered codec where (type, tag) matches, underlying-kind codec otherwise, error where neither exists; other instances and the default are unaffected; package functions == fresh default instance. non-trivial = state with at least one registration",
+			"Oracle: bytes equal the model's prediction for that instance only - registered codec where (type, tag) matches, otherwise that instance's codec for the underlying kind (which may itself be a registration of that instance), error where neither exists; other instances and the default are unaffected; package functions == fresh default instance. non-trivial = state with at least one registration",
 		Assumptions: []string{"registrations precede first use of the same instance (what the API documents); a tag on a slice/map field selects the container treatment, not the element codec (comment in codec.go)"},
 		Work:        c17Work,
 		Post: func(a *mc.Agg) []string {
@@ -96,6 +96,7 @@ type c17Op struct {
 	cfg  int
 	tag  string
 	m    int
+	typ  string // Marker | int
 }
 
 func (o c17Op) String() string {
@@ -106,9 +107,9 @@ func (o c17Op) String() string {
 		return fmt.Sprintf("Use(#%d)", o.inst)
 	}
 	if o.tag == "" {
-		return fmt.Sprintf("#%d.RegisterCodec(Marker, m%d)", o.inst, o.m)
+		return fmt.Sprintf("#%d.RegisterCodec(%s, m%d)", o.inst, o.typ, o.m)
 	}
-	return fmt.Sprintf("#%d.RegisterCodecWithTag(Marker, %q, m%d)", o.inst, o.tag, o.m)
+	return fmt.Sprintf("#%d.RegisterCodecWithTag(%s, %q, m%d)", o.inst, o.typ, o.tag, o.m)
 }
 
 type c17Probe struct {
@@ -117,8 +118,9 @@ type c17Probe struct {
 	want func(regs map[string]int, cfg ref.Cfg) string // model
 }
 
-func c17MarkerBytes(regs map[string]int, tag string, v int) ([]byte, bool) {
-	if m, ok := regs[tag]; ok {
+// c17IntBytes: how the basic type int is encoded on an instance with registrations regs.
+func c17IntBytes(regs map[string]int, tag string, v int) ([]byte, bool) {
+	if m, ok := regs["int:"+tag]; ok {
 		return ref.Uvarint(nil, uint64(1000+m)), true
 	}
 	switch tag {
@@ -127,7 +129,16 @@ func c17MarkerBytes(regs map[string]int, tag string, v int) ([]byte, bool) {
 	case "flat":
 		return ref.Uvarint(nil, uint64(v)), true
 	}
-	return nil, false // no codec for the underlying kind under this tag
+	return nil, false
+}
+
+// c17MarkerBytes: the named type uses its own registration, else falls back to the
+// instance's codec for its underlying kind.
+func c17MarkerBytes(regs map[string]int, tag string, v int) ([]byte, bool) {
+	if m, ok := regs["Marker:"+tag]; ok {
+		return ref.Uvarint(nil, uint64(1000+m)), true
+	}
+	return c17IntBytes(regs, tag, v)
 }
 
 func c17Probes() []c17Probe {
@@ -194,12 +205,14 @@ func c17Probes() []c17Probe {
 		}},
 		{"mapkey", func(p *plenc.Plenc) string { return res(p.Marshal(nil, &fKey{map[gen.Marker]int{5: 1}})) }, func(regs map[string]int, cfg ref.Cfg) string {
 			b, _ := c17MarkerBytes(regs, "", 5)
-			entry := append(append([]byte{0x08}, b...), 0x10, 0x02)
+			one, _ := c17IntBytes(regs, "", 1)
+			entry := append(append(append([]byte{0x08}, b...), 0x10), one...)
 			return hx(append(append([]byte{0x0b, 0x01}, ref.Uvarint(nil, uint64(len(entry)))...), entry...))
 		}},
 		{"mapvalue", func(p *plenc.Plenc) string { return res(p.Marshal(nil, &fVal{map[int]gen.Marker{1: 5}})) }, func(regs map[string]int, cfg ref.Cfg) string {
 			b, _ := c17MarkerBytes(regs, "", 5)
-			entry := append([]byte{0x08, 0x02, 0x10}, b...)
+			one, _ := c17IntBytes(regs, "", 1)
+			entry := append(append(append([]byte{0x08}, one...), 0x10), b...)
 			return hx(append(append([]byte{0x0b, 0x01}, ref.Uvarint(nil, uint64(len(entry)))...), entry...))
 		}},
 		{"tagged-flat", func(p *plenc.Plenc) string { return res(p.Marshal(nil, &fFlat{5})) }, field("flat")},
@@ -219,23 +232,6 @@ func c17Probes() []c17Probe {
 }
 
 var c17Cfgs = []ref.Cfg{{}, {ProtoTime: true, ProtoArrays: true}}
-
-// c17Build realises a model state: fresh instances with the registrations applied.
-func c17Build(s c17State) []*plenc.Plenc {
-	var out []*plenc.Plenc
-	for _, in := range s.insts {
-		p := NewPlenc(c17Cfgs[in.cfg])
-		for tag, m := range in.regs {
-			if tag == "" {
-				p.RegisterCodec(reflect.TypeOf(gen.Marker(0)), markerCodec{m})
-			} else {
-				p.RegisterCodecWithTag(reflect.TypeOf(gen.Marker(0)), tag, markerCodec{m})
-			}
-		}
-		out = append(out, p)
-	}
-	return out
-}
 
 func c17Work(c *mc.Ctx) {
 	if !c.Owns(0) && !c.Owns(1) {
@@ -297,9 +293,8 @@ func c17Work(c *mc.Ctx) {
 			for i, in := range nd.st.insts {
 				if !in.used {
 					for _, tag := range []string{"", "flat", "custom"} {
-						for m := 1; m <= 2; m++ {
-							ops = append(ops, c17Op{kind: "reg", inst: i, tag: tag, m: m + 2*i})
-						}
+						ops = append(ops, c17Op{kind: "reg", inst: i, tag: tag, m: 1 + 4*i, typ: "Marker"}, c17Op{kind: "reg", inst: i, tag: tag, m: 2 + 4*i, typ: "Marker"},
+							c17Op{kind: "reg", inst: i, tag: tag, m: 3 + 4*i, typ: "int"})
 					}
 					ops = append(ops, c17Op{kind: "use", inst: i})
 				}
@@ -310,7 +305,7 @@ func c17Work(c *mc.Ctx) {
 				case "new":
 					ns.insts = append(ns.insts, c17Inst{cfg: op.cfg, regs: map[string]int{}})
 				case "reg":
-					ns.insts[op.inst].regs[op.tag] = op.m
+					ns.insts[op.inst].regs[op.typ+":"+op.tag] = op.m
 				case "use":
 					ns.insts[op.inst].used = true
 				}
@@ -348,11 +343,15 @@ func c17Work(c *mc.Ctx) {
 							cur.insts = append(cur.insts, c17Inst{cfg: h.cfg, regs: map[string]int{}})
 							live = append(live, NewPlenc(c17Cfgs[h.cfg]))
 						case "reg":
-							cur.insts[h.inst].regs[h.tag] = h.m
+							cur.insts[h.inst].regs[h.typ+":"+h.tag] = h.m
+							rt := reflect.TypeOf(gen.Marker(0))
+							if h.typ == "int" {
+								rt = reflect.TypeOf(int(0))
+							}
 							if h.tag == "" {
-								live[h.inst].RegisterCodec(reflect.TypeOf(gen.Marker(0)), markerCodec{h.m})
+								live[h.inst].RegisterCodec(rt, markerCodec{h.m})
 							} else {
-								live[h.inst].RegisterCodecWithTag(reflect.TypeOf(gen.Marker(0)), h.tag, markerCodec{h.m})
+								live[h.inst].RegisterCodecWithTag(rt, h.tag, markerCodec{h.m})
 							}
 						case "use":
 							if !check(h.inst, "at Use,") {
